@@ -50,3 +50,18 @@ func healText(addr uintptr, data []byte) {
 	copy(unsafe.Slice((*byte)(unsafe.Pointer(addr)), len(data)), data)
 	syscall.Mprotect(page, syscall.PROT_READ|syscall.PROT_EXEC)
 }
+
+func envIntOr(k string, d int) int {
+	v := os.Getenv(k)
+	n := 0
+	if v == "" {
+		return d
+	}
+	for _, c := range v {
+		if c < '0' || c > '9' {
+			return d
+		}
+		n = n*10 + int(c-'0')
+	}
+	return n
+}
